@@ -5,6 +5,7 @@ import (
 	"io"
 	"os"
 	"strings"
+	"sync"
 	"time"
 
 	"github.com/apex/log"
@@ -26,6 +27,11 @@ type PgidExecutor struct {
 	dir    string
 	env    []string
 	interp *interp.Runner
+
+	// number of commands currently inside the exec handler (including commands started in the background with "&")
+	runningMx   sync.Mutex
+	runningCond *sync.Cond
+	running     int
 }
 
 // NewPgidExecutor creates new pgid executor
@@ -34,6 +40,7 @@ func NewPgidExecutor(stdin io.Reader, stdout, stderr io.Writer, killTimeout time
 	e := &PgidExecutor{
 		env: os.Environ(),
 	}
+	e.runningCond = sync.NewCond(&e.runningMx)
 
 	e.dir, err = os.Getwd()
 	if err != nil {
@@ -61,7 +68,7 @@ func NewPgidExecutor(stdin io.Reader, stdout, stderr io.Writer, killTimeout time
 		// the stdout/stderr files.
 		interp.StdIO(stdin, stdout, stderr),
 		// we use a custom ExecHandler for overriding the process group handling
-		interp.ExecHandler(createExecHandler(killTimeout)),
+		interp.ExecHandler(e.trackRunning(createExecHandler(killTimeout))),
 
 		// END MODIFICATION
 	)
@@ -118,12 +125,44 @@ func (e *PgidExecutor) Execute(ctx context.Context, job *executor.Job) ([]byte, 
 	// we disable returning the contents as byte array (needed for {{.Output}} support of
 	// TaskCTL, which we removed because of Memory Leaks)
 	err = e.interp.Run(ctx, cmd)
+	if ctx.Err() != nil {
+		// After a cancel the interpreter returns without waiting for commands it started in the background ("cmd &"):
+		// wait until their processes are gone as well, so nothing is still running when the task is reported finished
+		e.waitRunning()
+	}
 	if err != nil {
 		return []byte{}, err
 	}
 
 	return []byte{}, nil
 	// END MODIFICATION
+}
+
+// trackRunning counts the commands that are inside the exec handler
+func (e *PgidExecutor) trackRunning(next interp.ExecHandlerFunc) interp.ExecHandlerFunc {
+	return func(ctx context.Context, args []string) error {
+		e.runningMx.Lock()
+		e.running++
+		e.runningMx.Unlock()
+		defer func() {
+			e.runningMx.Lock()
+			e.running--
+			if e.running == 0 {
+				e.runningCond.Broadcast()
+			}
+			e.runningMx.Unlock()
+		}()
+		return next(ctx, args)
+	}
+}
+
+// waitRunning blocks until no command is inside the exec handler
+func (e *PgidExecutor) waitRunning() {
+	e.runningMx.Lock()
+	for e.running > 0 {
+		e.runningCond.Wait()
+	}
+	e.runningMx.Unlock()
 }
 
 func execEnv(env expand.Environ) []string {
